@@ -314,6 +314,41 @@ def r02_8(run, model):
     run.floor("Go name slots", n, 40)
 
 
+def r02_9(run, model):
+    run.rule("R02.9", "an initialiser kept only for its effects is re-emitted as a legal Go statement: every statement DCE pushes under an "
+                      "`expr_has_side_effects(&v)` test is built by a constructor that can fall back to `_ = v` (Go rejects value-only "
+                      "calls such as append(..)/int32(len(..)) and every non-call expression as a statement: `... is not used`)")
+    DCE = "crates/compiler/src/go/dce.rs"
+    f = model.fn("dce_block_with_live", DCE)
+    par = S.Parents(f.body)
+    n = 0
+    helpers = {g.name: g for g in model.fns(DCE) if g.body is not None}
+    for c in S.walk(f.body):
+        if c["k"] != "MethodCall" or c["method"] != "push" or not c["args"]:
+            continue
+        guarded = None
+        for a in par.ancestors(c):
+            if a["k"] == "If" and S.span_contains(a["then"]["sp"], c["sp"]) and any(True for _ in S.calls(a["cond"], "expr_has_side_effects")):
+                guarded = a
+                break
+        if guarded is None:
+            continue
+        n += 1
+        arg = c["args"][0]
+        at = S.norm_ws(run.facts.text(DCE, arg["sp"]))
+        ok = False
+        how = f"pushes `{at[:50]}`"
+        if arg["k"] == "Call" and S.callee_name(arg) in helpers:
+            hb = S.norm_ws(run.facts.text(DCE, helpers[S.callee_name(arg)].body["sp"]))
+            ok = "Stmt::Expr" in hb and re.search(r'Stmt::Assignment\{name:"_"', hb) is not None
+            how = f"built by {S.callee_name(arg)}(..), which " + ("falls back to `_ = v`" if ok else "cannot produce `_ = v`")
+        elif re.search(r'Stmt::Assignment\{name:"_"', at):
+            ok = True
+        run.ob("R02.9", f"dce_block_with_live|re-emitted effect #{n} is a legal statement", ok, site(DCE, c["sp"]), how,
+               witness="let _ = vec_len(w); let _ = vec_push(w, 2); emit the statements `int32(len(w))` and `append(w, 2)`: Go rejects both (value is not used)")
+    run.floor("re-emission sites in DCE", n, 3)
+
+
 def run(run, model):
     run.try_rule(r02_1, model)
     run.try_rule(r02_2, model)
@@ -321,10 +356,11 @@ def run(run, model):
     run.try_rule(r02_5, model)
     run.try_rule(r02_6, model)
     run.try_rule(r02_8, model)
+    run.try_rule(r02_9, model)
     from rules import c08
     run.try_rule(c08.r08_1, model)
     from rules import c07
-    for fn_ in (c19.r19_1, c19.r19_2, c19.r19_3, c19.r19_4, c07.r07_2, c08.r08_2, c08.r08_3):
+    for fn_ in (c19.r19_1, c19.r19_2, c19.r19_3, c19.r19_4, (lambda r, m: c07.r07_2(r, m, None, "C02")), c08.r08_2, c08.r08_3):
         run.try_rule(fn_, model)
     run.rule("R02.7", "Go type declarations are collected through every type former: the runtime-type collector is a structural traversal of Ty "
                       "that handles every child-carrying former (shared audit with C07 R07.2)")
